@@ -94,8 +94,9 @@ type Locker interface {
 // Cond mirrors sync.Cond: Wait releases the lock, blocks until a Signal/Broadcast that comes after it,
 // and takes the lock again (callers re-check their condition in a loop, so a Signal may wake everybody).
 type Cond struct {
-	L   Locker
-	gen int
+	L       Locker
+	gen     int
+	waiters int
 }
 
 func NewCond(l Locker) *Cond { return &Cond{L: l} }
@@ -103,7 +104,9 @@ func NewCond(l Locker) *Cond { return &Cond{L: l} }
 func (c *Cond) Wait() {
 	g := c.gen
 	c.L.Unlock()
+	c.waiters++
 	vrt.Point("cond-wait", false, func() bool { return c.gen != g })
+	c.waiters--
 	vrt.RaceAcquire(c)
 	c.L.Lock()
 }
@@ -113,7 +116,10 @@ func (c *Cond) Signal() {
 	c.gen++
 }
 
+// Broadcast readies every waiter, as the runtime does; each of them takes the lock and re-checks its condition.  The
+// cooperative scheduler would let the one whose condition holds run first and never show that cost, so it is counted.
 func (c *Cond) Broadcast() {
 	vrt.RaceRelease(c)
 	c.gen++
+	vrt.CondWakeups += c.waiters
 }
